@@ -46,11 +46,15 @@ type tcpProc struct {
 	log.Logger
 	stats   *proc.Stats
 	name    string
-	cfg     *service.Config
 	hostSet *host.Set
 
+	// cfg and lb are replaced by config updates while the connections
+	// are handled, they must be accessed with mu held.
+	mu  sync.RWMutex
+	cfg *service.Config
+	lb  lb.Balancer
+
 	ln proc.Listener
-	lb lb.Balancer
 	hm *hc.Monitor
 
 	wg       sync.WaitGroup
@@ -99,15 +103,16 @@ func (p *tcpProc) Name() string {
 func (p *tcpProc) HandleConn(conn net.Conn) {
 	// attach idle timeout to conn
 	cconn := netutil.New(conn)
-	cconn.SetReadTimeout(*p.cfg.IdleTimeout)
+	cfg, balancer := p.cfgAndBalancer()
+	cconn.SetReadTimeout(*cfg.IdleTimeout)
 	healthyHosts := p.hostSet.Healthy()
 	if len(healthyHosts) == 0 {
 		p.Warnf("No available host")
 		return
 	}
 
-	host := p.lb.PickHost(healthyHosts)
-	sconn, err := p.dial(host)
+	host := balancer.PickHost(healthyHosts)
+	sconn, err := p.dial(host, cfg)
 	if err != nil {
 		p.Warnf("Dial to host[%s] failed: %v", host, err)
 		p.stats.Upstream.CxConnectFail.Inc()
@@ -229,8 +234,14 @@ var (
 	}
 )
 
-func (p *tcpProc) dial(host *host.Host) (net.Conn, error) {
-	rawConn, err := dialTimeout("tcp", host.Addr, *p.cfg.ConnectTimeout)
+func (p *tcpProc) cfgAndBalancer() (*service.Config, lb.Balancer) {
+	p.mu.RLock()
+	defer p.mu.RUnlock()
+	return p.cfg, p.lb
+}
+
+func (p *tcpProc) dial(host *host.Host, cfg *service.Config) (net.Conn, error) {
+	rawConn, err := dialTimeout("tcp", host.Addr, *cfg.ConnectTimeout)
 	if err != nil {
 		if _, ok := err.(interface {
 			Timeout() bool
@@ -241,7 +252,7 @@ func (p *tcpProc) dial(host *host.Host) (net.Conn, error) {
 	}
 
 	conn := netutil.New(rawConn)
-	conn.SetReadTimeout(*p.cfg.IdleTimeout)
+	conn.SetReadTimeout(*cfg.IdleTimeout)
 	stats := &netutil.Stats{
 		ReadTotal:  p.stats.Upstream.CxRxBytesTotal,
 		WriteTotal: p.stats.Upstream.CxTxBytesTotal,
@@ -258,7 +269,8 @@ func (p *tcpProc) Address() string {
 }
 
 func (p *tcpProc) Config() *service.Config {
-	return p.cfg
+	cfg, _ := p.cfgAndBalancer()
+	return cfg
 }
 
 func (p *tcpProc) OnSvcHostAdd(hosts []*host.Host) error {
@@ -277,8 +289,9 @@ func (p *tcpProc) OnSvcAllHostReplace(hosts []*host.Host) error {
 }
 
 func (p *tcpProc) OnSvcConfigUpdate(c *service.Config) error {
+	oldCfg, _ := p.cfgAndBalancer()
 	// update if strategy changes.
-	if newHC := c.GetHealthCheck(); !p.cfg.GetHealthCheck().Equal(newHC) {
+	if newHC := c.GetHealthCheck(); !oldCfg.GetHealthCheck().Equal(newHC) {
 		var err error
 		if p.hm == nil {
 			p.hm, err = hc.NewMonitor(newHC, p.hostSet, p.Logger)
@@ -303,12 +316,14 @@ func (p *tcpProc) OnSvcConfigUpdate(c *service.Config) error {
 	}
 
 	// update balance policy
+	p.mu.Lock()
 	if newPolicy := c.GetLbPolicy(); p.cfg.GetLbPolicy() != newPolicy {
 		p.lb = lb.New(newPolicy)
 	}
 	if !p.cfg.Equal(c) {
 		p.cfg = c
 	}
+	p.mu.Unlock()
 	// TODO: update listener
 	return nil
 }
